@@ -596,7 +596,7 @@ def _slim_rec(r):
 def build_cases(tier):
     quick = tier == "quick"
     rnd = rng(f"{PROP}-{tier}")
-    n_valid, n_inexact, n_reserved, n_mal, n_syn = (60, 12, 10, 110, 16) if quick else (900, 150, 60, 1600, 120)
+    n_valid, n_inexact, n_reserved, n_mal, n_syn = (50, 12, 10, 110, 16) if quick else (900, 150, 60, 1600, 120)
     cases = []
     for i in range(n_valid):
         cases.append(make_valid_case(rnd, i, "valid"))
